@@ -20,7 +20,9 @@ fn main() {
     let mut rng = rand::rngs::StdRng::seed_from_u64(seed ^ 0x9E37_79B9_7F4A_7C15);
     sys::install_panic_hook();
     let mut t = trace::Tracer::new(&out);
-    match cmd.as_str() {
+    // a panic of the driver itself (not of a contract: those are caught per call and logged as refusals) ends the recording
+    // with a `driver_abort` event; everything recorded before it is still judged
+    let outcome = std::panic::catch_unwind(std::panic::AssertUnwindSafe(|| match cmd.as_str() {
         "epoch" => drivers::epoch::run(&mut rng, thorough, &mut t),
         "farm" => drivers::farm::run(&mut rng, thorough, &mut t),
         "pool" => drivers::pool::run(&mut rng, thorough, &mut t),
@@ -39,6 +41,10 @@ fn main() {
             eprintln!("usage: vh <driver> [--seed N] [--tier quick|thorough] [--out path]");
             std::process::exit(2);
         }
+    }));
+    if let Err(p) = outcome {
+        let msg = p.downcast_ref::<String>().cloned().or_else(|| p.downcast_ref::<&str>().map(|s| s.to_string())).unwrap_or_else(|| "panic".into());
+        t.emit("driver_abort", serde_json::json!({"what": msg.chars().take(300).collect::<String>()}));
     }
     let summary = t.finish();
     println!("{}", serde_json::json!({"driver": cmd, "seed": seed, "out": out, "summary": summary}));
